@@ -372,3 +372,29 @@ Example implicify_examples :
   wf_mol methanol_explicit = true /\ implicify methanol_explicit = Ok methanol /\
   wf_mol ph5_explicit = true /\ implicify ph5_explicit = Ok ph5_explicit.
 Proof. vm_compute. repeat split; reflexivity. Qed.
+
+(* ---- H. fix_structure leaves every recorded atom with the count calc_implicit gives it in the result ---- *)
+Lemma option_eqb_refl_z (v : option Z) : option_eqb Z.eqb v v = true.
+Proof. destruct v; cbn; [apply Z.eqb_refl | reflexivity]. Qed.
+
+Theorem recalc_loop_fresh g ns g' : (forall k, In k ns -> In k (ids g)) -> recalc_loop g ns = Ok g' -> fresh_on g' ns = true.
+Proof.
+  intros Hin H. destruct (recalc_loop_spec _ _ _ H) as [S [I [Hok Hat]]]. unfold fresh_on. apply forallb_forall. intros k Hk.
+  rewrite Hat. destruct (Hok k Hk) as [v Hv]. rewrite <- (proj1 (same_skel_calc _ _ k S)), Hv.
+  pose proof (Hin k Hk) as Hi. unfold ids, keys in Hi. apply in_map_iff in Hi. destruct Hi as [[k0 a0] [E Hi0]]. cbn [fst] in E. subst k0.
+  destruct (atom_of g k) as [a|] eqn:Ea.
+  - rewrite (proj2 (zmem_In k ns) Hk). cbn [with_h a_h result_of]. apply option_eqb_refl_z.
+  - exfalso. clear -Ea Hi0. unfold atom_of in Ea. induction (m_atoms g) as [|[k1 a1] r IH]; [destruct Hi0|].
+    cbn [zget] in Ea. destruct (k =? k1) eqn:E; [discriminate|]. destruct Hi0 as [Hh | Hh]; [inversion Hh; subst; rewrite Z.eqb_refl in E; discriminate | exact (IH Hh Ea)].
+Qed.
+
+(* non-vacuity: C.C.C with the bonds 1-2 and 2-3 added and the counts still those of three methanes: recalculating {1, 2, 3}
+   gives propane; recalculating only {1, 2} (a lost entry of the changed set) leaves atom 3 stale, and fresh_on sees it *)
+Definition propane_stale : mol :=
+  mkMol [(1, mkAtom 6 None 0 false (Some 4) None); (2, mkAtom 6 None 0 false (Some 4) None); (3, mkAtom 6 None 0 false (Some 4) None)]
+        [(1, [(2, mkBond 1 None)]); (2, [(1, mkBond 1 None); (3, mkBond 1 None)]); (3, [(2, mkBond 1 None)])].
+Example recalc_loop_fresh_example :
+  (exists g', recalc_loop propane_stale [1; 2; 3] = Ok g' /\ map (fun na => a_h (snd na)) (m_atoms g') = [Some 3; Some 2; Some 3] /\
+              fresh_on g' [1; 2; 3] = true /\ stored_ok g' = true) /\
+  (exists g', recalc_loop propane_stale [1; 2] = Ok g' /\ fresh_on g' [1; 2] = true /\ fresh_on g' [1; 2; 3] = false /\ stored_ok g' = false).
+Proof. split; eexists; vm_compute; repeat split; reflexivity. Qed.
